@@ -159,7 +159,7 @@ func (h *lcH) roleOf(gid uint64, site string) string {
 	case strings.HasPrefix(site, "loop."):
 		h.roles[gid] = "L"
 		return "L"
-	case strings.HasPrefix(site, "prod."):
+	case strings.HasPrefix(site, "prod."), site == "asm.send", site == "asm.close":
 		h.roles[gid] = "P"
 		return "P"
 	case site == "run.deactivate":
@@ -461,6 +461,12 @@ func c10Gen(r *Rng, tier string, idx int) (string, func() string) {
 		return "src udp opens 1 sched udpFail", func() string { return lcUDPFail(idx, false) }
 	case idx == 1:
 		return "src udp opens 1 sched udpBusy", func() string { return lcUDPFail(idx, true) }
+	case c < 4:
+		rounds := r.Range(1, 2)
+		nreq := r.Range(1, 3)
+		k := r.Range(1, 2)
+		return fmt.Sprintf("src abaco opens 1 sched asmReq rounds %d nreq %d k %d", rounds, nreq, k),
+			func() string { return lcAsmReq(idx, rounds, nreq, k) }
 	case c < 9:
 		nfail := r.Pick(1, 1, 2)
 		req := b2i(r.Chance(50))
